@@ -70,6 +70,8 @@ FIXED = [
      'heap-buffer-overflow in dtw_dba_ptrs for t=4, lengths {3,4}, window=1', None),
     ('F29', 'C08', 'fix: psi_2b larger than the rolling buffer wrote past the first row in dtw.distance / dtw_distance',
      'heap-buffer-overflow in dtw_distance (IndexError in Python) for l1=l2=6, window=1, psi_2b=6', None),
+    ('F30', 'C07', 'fix: n-dim distance matrix with multiprocessing passed use_ndim twice',
+     'dtw_ndim.distance_matrix(series, parallel=True, use_c=False) raised TypeError (use_ndim given twice) in every worker', None),
 ]
 
 OPEN = [
